@@ -164,6 +164,45 @@ def task(t):
     return dict(n=n, distinct=len(distinct), violations=viols, sample=sample)
 
 
+def tls_task(_t):
+    """connect(starttls=True): the mechanism must come from the list announced AFTER the handshake - also when that list is missing
+    or empty (then nothing qualifies and no credentials may be sent)"""
+    viols = []
+    n = 0
+    pres = [["PLAIN"], ["LOGIN", "PLAIN"], ["DIGEST-MD5", "PLAIN"], []]
+    posts = [None, [], ["X-OTHER"], ["LOGIN"], ["PLAIN", "LOGIN"], ["PLAIN-CLIENTTOKEN"]]
+    for pre in pres:
+        for post in posts:
+            for authmech in (None, "PLAIN", "LOGIN"):
+                caps_pre = [(b"IMPLEMENTATION", b"x"), (b"SASL", " ".join(pre).encode()), (b"SIEVE", b"fileinto")]
+                caps_post = [(b"IMPLEMENTATION", b"x")] + ([(b"SASL", " ".join(post).encode())] if post is not None else []) + [(b"SIEVE", b"fileinto")]
+                srv = refms.RefServer(caps_plain=caps_pre, caps_tls=caps_post, starttls=True)
+                s = wire.open_session(srv, starttls=True, authmech=authmech)
+                o = s.connect_outcome
+                n += 1
+                want = expected_mech(post, authmech)
+                sent = [a for v, a in srv.log if v == "AUTHENTICATE"]
+                bad = None
+                if o.kind in ("livelock", "hang"):
+                    bad = ("no-return", "connect does not return")
+                elif want in (None, "NOSASL"):
+                    if sent:
+                        bad = ("credentials-without-mechanism", "post-TLS list %r: AUTHENTICATE %r was sent" % (post, sent[0][0][1]))
+                    elif o.kind == "ret" and o.value is True:
+                        bad = ("connect-true-without-auth", "connect returned True without authenticating")
+                elif not sent or sent[0][0][1].decode().upper() != want:
+                    bad = ("wrong-mechanism", "post-TLS list %r, authmech %r: used %r, expected %s" % (post, authmech, sent and sent[0][0][1], want))
+                elif not (o.kind == "ret" and o.value is True):
+                    bad = ("verdict", "server said OK, connect gave %s" % o.brief())
+                if bad is None and srv.violations:
+                    bad = ("protocol-violation", srv.violations[0])
+                if bad:
+                    viols.append({"property": "C16", "engine": "wire", "signature": ["C16", "starttls", "pre=%s post=%s" % ("+".join(pre) or "-", "none" if post is None else ("+".join(post) or "empty")), bad[0]],
+                                  "what": "greeting announces %r, after STARTTLS %r, authmech %r: %s" % (pre, post, authmech, bad[1]),
+                                  "case": {"tls": True}, "witness": "pre=%r post=%r authmech=%r" % (pre, post, authmech), "observed": o.brief()})
+    return dict(n=n, distinct=n, violations=viols, sample=None)
+
+
 def len_task(t):
     """credential length ladder: every login / password length in a window for every implemented mechanism (encoders that fold,
     chunk or cap their output show at some length)"""
@@ -186,6 +225,7 @@ def run(tier, seed):
     lists = sasl_lists() + [None]
     chunks = [lists[i::16] for i in range(16)]
     res = pool.run_tasks("checks.c16:task", [c for c in chunks if c])
+    res += pool.run_tasks("checks.c16:tls_task", [0], force_pool=True)
     top = 160 if tier == "quick" else 1300
     res += pool.run_tasks("checks.c16:len_task", [(m, lo, min(top, lo + 20)) for m in IMPLEMENTED for lo in range(0, top, 20)])
     n = sum(r["n"] for r in res)
@@ -205,6 +245,8 @@ def run(tier, seed):
 
 def replay(payload):
     c = payload["case"]
+    if c.get("tls"):
+        return [v for v in tls_task(0)["violations"] if v["signature"] == payload["signature"]]
     if c.get("ladder"):
         return len_task((c["ladder"][0], c["ladder"][1], c["ladder"][1] + 1))["violations"]
     # realm-bearing and realm-less challenges alternate in one process, as in the exploration
